@@ -197,6 +197,8 @@ HasInitialProduct ==
     IF "prod" \in DOMAIN par THEN par["prod"][1] > 0
     ELSE IF "p" \in DOMAIN par THEN par["p"][1] > 0 ELSE FALSE
 Regime == SlopeSign(InitialSlope(fn, par)[1])
+(* the size of the problem (largest argument, at least 1): absolute tolerances are relative to it *)
+Scale == LET S == { par[k] : k \in DOMAIN par } \cup {QOne} IN CHOOSE m \in S : \A x \in S : QLe(x, m)
 Class == fn \o (IF HasInitialProduct THEN ":p+" ELSE ":p0") \o ":" \o Regime \o ":" \o backend
           \o (IF dt = QZero THEN ":t0" ELSE "")
 CaseRec ==
@@ -210,7 +212,7 @@ CaseRec ==
                 \* tolerances are part of the case: residual relative to the size of the two
                 \* sides (40-digit arithmetic), initial value likewise; float backends against the
                 \* 40-digit value
-                rtol_residual |-> "1e-25", rtol_init |-> "1e-25", rtol_backend |-> "1e-9",
+                rtol_residual |-> "1e-25", rtol_init |-> "1e-25", rtol_backend |-> "1e-9", scale |-> Scale,
                 raises |-> FALSE ] ]
 Emit == Done => PrintT(<<"CASE", ToJson(CaseRec)>>)
 =============================================================================
